@@ -225,6 +225,7 @@ def props_token(p):
 def gen_history(world: World, kind: str, length: int, weights=None, irregular_bias: float = 0.3):
     """Generate and execute one history on the real objects; returns the main object's name."""
     rng = world.rng
+    world.objs = {}          # the frame oracle looks at the objects of this history only
     CLS = world.CLS[kind]
     digital = kind == "digital"
     tag = rng.choice(SUPPORTED[kind])
